@@ -114,7 +114,7 @@ type runResult struct {
 	timedOut bool
 }
 
-func falcoBin() string { return filepath.Join(fw.Verif, ".build", "falco") }
+func falcoBin() string { return fw.FalcoBin() }
 
 func runCmd(dir string, asNobody bool, argv []string, timeout time.Duration) runResult {
 	cmd := exec.Command(argv[0], argv[1:]...)
